@@ -21,6 +21,9 @@ structure AllocCodecs (C : Codecs) (A : String → Bytes → Nat) (a0 : Nat) : P
   alloc_le : ∀ typ w, A typ w ≤ w.length + a0
   /-- what it returns is no bigger than what it allocated -/
   value_le : ∀ typ w v k, C.dec typ w = .ok (v, k) → tupSize v ≤ A typ w
+  /-- what a failing decoder has assigned in the receiver before it gave up (visible where the caller drops the
+      error) is no bigger than what the receiver held plus what the call allocated -/
+  fail_le : ∀ typ w old, tupSize (C.decFail typ w old) ≤ tupSize old + A typ w
 
 /-! ## slices -/
 
@@ -360,7 +363,9 @@ theorem cap_next (C : Codecs) : ∀ (st : UStmt) (s s' : UState), runUStmt C s s
     split at h
     · split at h
       · cases h; exact Nat.le_refl _
-      · split at h <;> cases h; exact Nat.le_refl _
+      · split at h
+        · cases h
+        · split at h <;> cases h <;> exact Nat.le_refl _
       · cases h
     · cases h
     · cases h
@@ -649,7 +654,11 @@ theorem value_next (C : Codecs) (A : String → Bytes → Nat) (a0 : Nat) (hA : 
         (match wo with
           | .ok w => (match C.dec typ w with
             | .ok (v, k) => Step.next { s with env := s.env.set f (.t v), bytesRead := if stores then k else s.bytesRead }
-            | .err => if checked then Step.err else Step.next s
+            | .err =>
+              if checked then Step.err else
+              match s.env.get f with
+              | some (.t old) => Step.next { s with env := s.env.set f (.t (C.decFail typ w old)) }
+              | _ => Step.next s
             | .panic => Step.panic)
           | .err => Step.err
           | .panic => Step.panic) = Step.next s' →
@@ -662,7 +671,13 @@ theorem value_next (C : Codecs) (A : String → Bytes → Nat) (a0 : Nat) (hA : 
         · rename_i v k hd
           cases h
           exact set_value _ _ _ _ (by simp only [Val.size]; exact hA.value_le typ w v k hd) hn
-        · split at h <;> cases h; exact ⟨hn, Nat.le_add_right _ _⟩
+        · split at h
+          · cases h
+          · split at h
+            · rename_i old hg
+              cases h
+              exact replace_value _ _ _ _ _ hg (by simp only [Val.size]; exact hA.fail_le typ w old) hn
+            · cases h; exact ⟨hn, Nat.le_add_right _ _⟩
         · cases h
       · cases h
       · cases h
